@@ -979,8 +979,9 @@ func (s *vSim) decodeOracle(n *vNode, lcReq, lc uint32, peerBytes []byte, peerSe
 }
 
 type vNetTx struct {
-	I  int    `json:"i"`
-	Pl string `json:"pl,omitempty"` // payload id, "" = none
+	I     int    `json:"i"`
+	Pl    string `json:"pl,omitempty"`    // payload id, "" = none
+	Empty bool   `json:"empty,omitempty"` // payload field PRESENT but empty (proto `optional bytes`: non-nil empty slice after unmarshal)
 }
 
 type vMsg struct {
@@ -1087,6 +1088,8 @@ func (s *vSim) buildMsg(m *vMsg) *Envelope {
 			nt := &Transaction{Data: s.u.txs[t.I].data}
 			if t.Pl != "" {
 				nt.Payload = s.u.payloads[t.Pl]
+			} else if t.Empty {
+				nt.Payload = []byte{}
 			}
 			txs = append(txs, nt)
 		}
